@@ -189,6 +189,11 @@ def run(ctx):
     r = recs[3]
     ctx.sample({"c2s": {"stream": gc.show(r["notes"]), "call": {k: r["calls"][0][k] for k in ("types", "mode", "join", "oh", "ot", "st")},
                         "groups": r["calls"][0]["groups"][:4]}})
+    # whole sessions against System.tla: this check judges the rejections at the "countnotes" event
+    from . import system_common as sysc
+    sessions, sverdict = sysc.run_sessions(ctx, 150 if ctx.quick else 3000, ctx.seed + 9)
+    sysc.judge(ctx, "C09", sessions, sverdict, {"countnotes"}, "counting a chart's notes inside a session")
+    ctx.notes["sessions_with_a_countnotes_event"] = sum(1 for s_ in sessions if any(e["op"] == "countnotes" for e in s_["events"]))
     ctx.exhaustive = True
     ctx.rule = ("M: every stream of the grid x 9 policies through the operational machine (TLC BFS); S2C: every terminal state; "
                 "C2S: one evaluation per recorded call (group_notes / count_*); non-trivial = stream contains a head or a tail; "
